@@ -189,7 +189,27 @@ def validate_file(nc, cls, orthogonal=None, has_pressure=None, has_wall=True):
 
 
 def run(cap):
-    cls = case_class(cap.spec)
-    o = cap.mesh.user_options
-    has_p = hasattr(next(iter(cap.eq.regions.values())), "pressure")
-    return validate_file(cap.nc, cls, orthogonal=bool(o.orthogonal), has_pressure=has_p, has_wall=hasattr(cap.eq, "closed_wallarray"))
+    cls = cap.spec.get("c12_class") or case_class(cap.spec)
+    nc = cap.nc
+    if cap.mesh is not None:
+        orth = bool(cap.mesh.user_options.orthogonal)
+        has_p = hasattr(next(iter(cap.eq.regions.values())), "pressure")
+        has_wall = hasattr(cap.eq, "closed_wallarray")
+    else:
+        import yaml
+
+        y = yaml.safe_load(nc["__strings__"].get("hypnotoad_inputs_yaml", "{}")) or {}
+        orth = bool(y.get("orthogonal", True))
+        has_p = "pressure" in nc
+        has_wall = True
+    out = validate_file(nc, cls, orthogonal=orth, has_pressure=has_p, has_wall=has_wall)
+    # sanity of a file produced from a hostile / shipped input: points on their flux
+    # surfaces (file-level, needs the live equilibrium)
+    if cap.mesh is not None and cap.spec.get("hostile"):
+        import numpy as np
+
+        psi = cap.eq.psi
+        tau = 1.5 * float(cap.mesh.user_options.refine_atol)
+        e = np.abs(psi(nc["Rxy"], nc["Zxy"]) - nc["psixy"]) / np.maximum(1.0, np.abs(nc["psixy"]))
+        out.append(rec("hostile input accepted: psixy = psi(Rxy, Zxy)", cls, e.size, float(e.max()) / tau, 1.0))
+    return out
